@@ -270,10 +270,17 @@ theorem inTF_step (s : St) (op : Op) (h : InTF s) (hok : opOk s op = true) (hex 
       have h2 : InTF (increment { s with timer := false }).1 :=
         ⟨wf_congr _ _ h1.wf i1 i2, by rw [i5]; exact h1.state, by rw [i3]; exact h1.addrs,
           fun sc hsc => h1.noReady sc (i1 ▸ hsc)⟩
+      simp only [timerCallback, Bool.false_eq_true, if_false]
       split
       · obtain ⟨a, b⟩ := inTF_requestConnection _ h2
         exact ⟨b, fun _ _ => a⟩
       · exact ⟨allTF_nil, fun _ _ => h2⟩
+  | late =>
+    simp only [step, lateFire_eq]
+    refine ⟨allTF_nil, fun _ _ => ?_⟩
+    split
+    · exact h
+    · exact ⟨wf_congr s _ h.wf rfl rfl, h.state, h.addrs, h.noReady⟩
   | exitIdle =>
     simp only [step, exitIdle, h.state]
     exact ⟨by intro st p hm; simp at hm, fun _ _ => by simpa using h⟩
